@@ -55,6 +55,16 @@ func gen1(t *rapid.T) Case {
 		root = r
 	} else {
 		root = gen.Accel(t, cfg)
+		if o&regexp2.ECMAScript == 0 && rapid.Bool().Draw(t, "rtllong") && root.Has(func(x *ast.Node) bool { return x.K == ast.KLit && len(x.R) > 40 }) {
+			// literals around the 50-rune prefix limit matter in both directions
+			o |= regexp2.RightToLeft
+			c.Spec.Options = int32(o)
+			h.Label("rtl-long-literal")
+			// right-to-left the "leading" literal is the one at the right end of the pattern
+			if root.K == ast.KSeq && len(root.Kids) > 1 && root.Kids[0].K == ast.KLit && len(root.Kids[0].R) > 40 {
+				root.Kids = append(root.Kids[1:], root.Kids[0])
+			}
+		}
 		gen.Resolve(t, root, base, o&regexp2.ECMAScript != 0, cfg)
 		po := ast.PrintOpts{ECMA: o&regexp2.ECMAScript != 0}
 		if base.X {
@@ -93,6 +103,9 @@ func gen1(t *rapid.T) Case {
 			return false
 		}) {
 			rate = 3 // the pattern searches for U+FFFD: invalid bytes decode to it
+		}
+		if i%2 == 1 {
+			rate = 0 // every second input stays valid UTF-8: long literals survive only uncorrupted
 		}
 		c.Inputs = append(c.Inputs, []byte(gen.ByteString(t, in, rate)))
 	}
